@@ -454,6 +454,11 @@ def run(ctx):
     rule_src(ctx, tu)
     rule_rng(ctx, tu, eff)
     rule_globals(ctx, tu, ctx.py)
+    # shared clause: the mode x engine decision table (C14.DISPATCH) -- the deterministic engine's default processing is the
+    # unseeded pass-through, so its trajectory cannot depend on the seed
+    from ..core import borrow
+    from . import c14
+    borrow(ctx, "C08", c14.rule_dispatch, tu)
     rule_init_all(ctx, tu, eff)
     rule_slice(ctx, tu)
     rule_py_seed(ctx, py)
